@@ -561,6 +561,143 @@ spec('C18', run=run_c18, search=search_with(run_c18),
      assumptions=[])
 
 
+# ------------------------------------------------------------------------------------------------
+# C01 / C02: rustc as the implementation under test
+
+
+def run_c01(ctx, tier=None, seed=None):
+    import probes
+    tier = tier or ctx.tier
+    seed = ctx.seed if seed is None else seed
+    t = load_table()
+    n = 115 * 115 if tier == 'thorough' else 600
+    npairs, ninter = probes.gen_c01(t, seed, n, os.path.join(HARNESS, 'src', 'gen', 'probe01_gen.rs'))
+    ctx.extra['pairs_probed'] = npairs
+    ctx.extra['interchangeability_bindings_type_checked'] = ninter
+    from main import _built
+    _built.discard(('fl', ('probe01',), False))
+    n_before = len(ctx.problems)
+    if not cargo_build(ctx, 'fl', ['probe01']):
+        # a failing `let _c: C = a * b;` is the property failing: the result type is not the named quantity
+        p = ctx.problems[-1]
+        errs = re.findall(r'(error\[E\d+\][^\n]*\n\s*--> src/bin/\.\./gen/probe01_gen\.rs:\d+:\d+[^\n]*(?:\n[^\n]*){0,6})', p.detail or '')
+        if errs:
+            ctx.problems[-1] = Problem('property-fails', 'a result type is not interchangeable with the named default-kind quantity of its dimension (probe does not type-check)',
+                                       detail=errs[0][:1500], line=errs[0].splitlines()[0], failing_input=True, cmd='cargo build --bin probe01 (src/gen/probe01_gen.rs)', tag='interchangeable')
+        return
+    dump = lean_dump(ctx)
+    if dump is None:
+        return
+    res = pipe(ctx, 'result-types', '{ cat %s; %s; }' % (dump, bin_path('probe01', False, 'fl')), shards=1, tier=tier, seed=seed)
+    absorb(ctx, res, 'result-types')
+
+
+spec('C01', run=run_c01, search=search_with(run_c01, seeds=(7,)),
+     rule='quick: 600 seeded ordered pairs of the 115 SI quantities + the diagonal (thorough: all 13 225) × {*, /, mul_add}, every unary/scaling/preserving form on all 115 quantities '
+          '(recip, powi for E ∈ {P1,P2,P3,N1,N3,Z0}, admissible sqrt/cbrt, V*q, V/q, + − % neg, *V, /V, assigning forms, abs signum min max floor ceil round trunc fract), 5×5 synthetic '
+          'vectors with a distinct exponent in every position and special kinds; exponents read back with to_i32, kind with type_name; every admissible `let _: C = a*b` / `a/b` binding is type-checked; '
+          'non-trivial: operands of different dimension',
+     trusted_base=['rustc’s trait solver and typenum are the implementation under test, not modelled'],
+     assumptions=['f64 storage (the impls are generic in V)'])
+
+
+def run_c02(ctx, tier=None, seed=None):
+    import probes
+    import random
+    tier = tier or ctx.tier
+    seed = ctx.seed if seed is None else seed
+    t = load_table()
+    if not cargo_build(ctx, 'wide', []):
+        return
+    rlib, deps = probes.find_rlib('wide')
+    if not rlib:
+        ctx.problems.append(Problem('harness-broken', 'uom rlib not found'))
+        return
+    cl = probes.classes(t)
+    keys = sorted(cl, key=lambda k: (k[1], k[0]))
+    rng = random.Random(seed)
+    pairs = [(x, y) for x in keys for y in keys if x != y]
+    if tier != 'thorough':
+        special = [k for k in keys if k[1] != 'Kind']
+        must = [(x, y) for x in special for y in keys if x != y and (x[0] == y[0])] + [(y, x) for x in special for y in keys if x != y and (x[0] == y[0])]
+        pairs = list(dict.fromkeys(must + rng.sample(pairs, 400)))
+    cases = []   # (form, a, b, same_module)
+    for x, y in pairs:
+        a, b = cl[x][0], cl[y][0]
+        for f in probes.FORMS:
+            cases.append((f, a, b, 0))
+    for x in keys:            # positive controls and kind-dependent forms on identical types
+        a = cl[x][0]
+        for f in probes.FORMS + ['sqrt', 'cbrt', 'neg']:
+            cases.append((f, a, a, 1))
+        for b in cl[x][1:2]:  # same type, other quantity module: foreign units are still rejected
+            for f in ('newf', 'getf', 'letbind', 'add', 'eq', 'from'):
+                cases.append((f, a, b, 0))
+    pdir = os.path.join(VERIF, 'build', 'probes02')
+    os.makedirs(pdir, exist_ok=True)
+    nfiles = 32
+    files = []
+    index = []
+    for k in range(nfiles):
+        part = cases[k::nfiles]
+        path = os.path.join(pdir, 'p%02d.rs' % k)
+        with open(path, 'w', encoding='utf-8') as f:
+            f.write('#![allow(unused)]\n')
+            for i, (form, a, b, same) in enumerate(part):
+                f.write(probes.probe_fn('f%d' % i, form, a, b) + '\n')
+        files.append(path)
+        index.append(part)
+    results = probes.run_probe_files(files, rlib, deps)
+    lines = []
+    for k, (bad, other) in enumerate(results):
+        if other:
+            ctx.problems.append(Problem('harness-broken', 'rustc reported errors without a location in %s' % files[k], '; '.join(other[:3])))
+        for i, (form, a, b, same) in enumerate(index[k]):
+            obs = 0 if (i + 2) in bad else 1
+            lines.append('acc %s %s %s %s %s %d %d %s:%s:%s' % (form, ','.join(map(str, a['dim'])), a['kind'], ','.join(map(str, b['dim'])), b['kind'], same, obs,
+                                                         a['module'], b['module'], bad.get(i + 2, '-')))
+    cpath = os.path.join(pdir, 'cases.txt')
+    with open(cpath, 'w', encoding='utf-8') as f:
+        f.write('\n'.join(lines) + '\n')
+    dump = lean_dump(ctx)
+    if dump is None:
+        return
+    res = pipe(ctx, 'rustc-verdicts', 'cat %s %s' % (dump, cpath), shards=1, tier=tier, seed=seed)
+    absorb(ctx, res, 'rustc-verdicts')
+    ctx.extra['probe_functions'] = len(cases)
+    ctx.extra['class_pairs'] = len(pairs)
+    ctx.extra['classes'] = len(keys)
+    # mixed base units: accepted with autoconvert, rejected without (C17's compile-time half)
+    mixed_src = os.path.join(pdir, 'mixed.rs')
+    units = 'length = uom::si::length::centimeter, mass = uom::si::mass::gram, time = uom::si::time::second, electric_current = uom::si::electric_current::ampere, ' \
+            'thermodynamic_temperature = uom::si::thermodynamic_temperature::kelvin, amount_of_substance = uom::si::amount_of_substance::mole, luminous_intensity = uom::si::luminous_intensity::candela'
+    with open(mixed_src, 'w', encoding='utf-8') as f:
+        f.write('#![allow(unused)]\ntype Cgs = dyn uom::si::Units<f64, %s>;\ntype L = uom::si::length::Length<Cgs, f64>;\ntype M = uom::si::f64::Length;\n' % units)
+        for i, body in enumerate(['let _ = a + b;', 'let _ = a - b;', 'let _ = a == b;', 'let _ = a < b;', 'let _ = a * b;', 'let _ = a / b;', 'let _ = a % b;', 'let mut a = a; a += b;',
+                                  'let _ = a.partial_cmp(&b);']):
+            f.write('pub fn m%d(a: L, b: M) { %s }\n' % (i, body))
+    for fs, expect_ok in (('wide', True), ('fl-noauto', False)):
+        if not cargo_build(ctx, fs, []):
+            continue
+        rl, dp = probes.find_rlib(fs)
+        bad, other = probes.rustc_rejects(mixed_src, rl, dp)
+        for i in range(9):
+            ok = (i + 5) not in bad
+            if ok != expect_ok:
+                ctx.problems.append(Problem('property-fails', 'mixed-base-unit program m%d %s with feature set %s' % (i, 'compiles' if ok else 'is rejected', fs),
+                                            line='mixed.rs fn m%d' % i, failing_input=True, cmd='rustc %s' % mixed_src, tag='mixed-base'))
+        ctx.extra['mixed_base_programs_%s' % fs] = 9
+
+
+spec('C02', run=run_c02, search=None,
+     rule='one probe function per (form, class pair): 16 forms (+ − % += −= %= == < partial_cmp Ord::max let-binding hypot atan2 new::<foreign> get::<foreign> From/Into) × '
+          '400 seeded + all same-dimension-different-kind ordered pairs of the (dimension, kind) classes of the SI (thorough: all pairs), 19 forms on every class with itself '
+          '(positive controls, marker-dependent forms, sqrt/cbrt/neg), same-type-different-module pairs; rustc’s verdict per function (primary error span → function) compared '
+          'with the acceptance relation; 9 mixed-base programs under autoconvert on/off; non-trivial: the two types differ',
+     trusted_base=['rustc is the implementation under test; a probe is “rejected” when an error’s primary span lies in its line'],
+     assumptions=['f64 storage for all forms except Ord::max (i32)'])
+
+
 def replay(ctx, spec_, path):
     with open(path, encoding='utf-8') as f:
         body = json.load(f)
